@@ -85,7 +85,7 @@ func registerResolver() {
 			world("HarnessC02", 1, 1, 2, 0, 0, 0), world("HarnessC02", 2, 1, 2, 0, 1, 0), world("HarnessC02", 3, 1, 1, 0, 9, 0), world("HarnessC02", 0, 1, 1, 11, 9, 0), world("HarnessC02", 1, 1, 1, 11, 1, 0), world("HarnessC02", 2, 1, 1, 11, 3, 1), world("HarnessC02", 5, 1, 1, 2121, 0, 0), world("HarnessC02", 100, 0, 0, 0, 1, 0), world("HarnessC02", 102, 0, 0, 0, 1, 0), world("HarnessC02", 103, 0, 0, 0, 1, 0), world("HarnessC02", 8, 1, 1, 0, 9, 0), world("HarnessC02", 8, 1, 1, 11, 1, 0), world("HarnessC02", 0, 1, 1, 21, 3, 0), world("HarnessC02", 109, 0, 0, 0, 1, 0),
 			sh("HarnessC02Static", "target struct with an embedded exported (non-marker) field that cannot be derived", 0, 0), sh("HarnessC02Static", "converter whose struct input has an underivable embedded exported field", 0, 1),
 		},
-		Thorough: []Shard{sh("HarnessC02Static", "target struct with an embedded exported (non-marker) field that cannot be derived", 0, 0), sh("HarnessC02Static", "converter whose struct input has an underivable embedded exported field", 0, 1), 
+		Thorough: []Shard{sh("HarnessC02Static", "target struct with an embedded exported (non-marker) field that cannot be derived", 0, 0), sh("HarnessC02Static", "converter whose struct input has an underivable embedded exported field", 0, 1),
 			world("HarnessC02", 6, 1, 1, 0, 1, 0, 32), world("HarnessC02", 2, 1, 2, 0, 1, 0, 32), world("HarnessC02", 6, 1, 2, 11, 1, 0, 32),
 			world("HarnessC02", 10, 1, 2, 11, 1, 0), world("HarnessC02", 10, 2, 2, 11, 9, 0), world("HarnessC02", 10, 1, 1, 1111, 1, 0), sh("HarnessShapes", "statically declared target whose struct reaches the marker only through an embedded struct: loose field values do not satisfy it", 0, 1),
 			world("HarnessC02", 1, 1, 2, 0, 0, 0), world("HarnessC02", 2, 1, 2, 0, 1, 0), world("HarnessC02", 3, 1, 1, 0, 9, 0), world("HarnessC02", 0, 1, 1, 11, 9, 0), world("HarnessC02", 1, 1, 1, 11, 1, 0), world("HarnessC02", 2, 1, 1, 11, 3, 1), world("HarnessC02", 5, 1, 1, 2121, 0, 0), world("HarnessC02", 100, 0, 0, 0, 1, 0), world("HarnessC02", 102, 0, 0, 0, 1, 0), world("HarnessC02", 103, 0, 0, 0, 1, 0), world("HarnessC02", 3, 1, 2, 0, 9, 0), world("HarnessC02", 3, 1, 1, 11, 3, 0), world("HarnessC02", 0, 1, 1, 1111, 1, 0), world("HarnessC02", 0, 1, 1, 2121, 1, 0), world("HarnessC02", 0, 1, 2, 21, 1, 0), world("HarnessC02", 5, 1, 1, 212111, 0, 0), world("HarnessC02", 6, 1, 1, 2111, 1, 0), world("HarnessC02", 1, 1, 1, 91, 1, 0),
